@@ -9,6 +9,7 @@ import (
 	"runtime/debug"
 	"strings"
 	"sync"
+	"time"
 
 	"golang.org/x/tools/go/ssa"
 )
@@ -42,6 +43,8 @@ type Run struct {
 	curWhere            string
 	curFn               string
 	crcApps             map[int][]*Term
+	xxhApps             map[int][]*Term
+	hashRecs            map[string][]hashRec
 	Axioms              int
 	Bloom               map[string][][]Value
 	BloomN              int
@@ -65,6 +68,7 @@ type Run struct {
 	curInstr            ssa.Instruction
 	hang                *Violation
 	Blobs               []jsonBlob
+	Deadline            time.Time
 	Pin                 map[string]uint64
 	PinAll              bool
 }
@@ -211,6 +215,9 @@ func (r *Run) concretize(n Num, lo, hi uint64) uint64 {
 	var vals []uint64
 	excl := r.TT.True()
 	for {
+		if !r.Deadline.IsZero() && time.Now().After(r.Deadline) {
+			r.abort("budget: exploration deadline reached while enumerating the values of a symbolic length/index")
+		}
 		v, ok := r.S.TermValue(excl, n.T)
 		if !ok {
 			break
@@ -230,6 +237,13 @@ func (r *Run) concretize(n Num, lo, hi uint64) uint64 {
 	r.Trace = append(r.Trace, int(vals[0]))
 	r.assume(r.TT.Eq(n.T, r.TT.BV(n.W, vals[0])))
 	return vals[0]
+}
+
+func (r *Run) concCap() int {
+	if r.Opts != nil && r.Opts.ConcCap > 0 {
+		return r.Opts.ConcCap
+	}
+	return concretizeCap
 }
 
 func (fr *Frame) get(v ssa.Value) Value {
@@ -442,6 +456,9 @@ func (fr *Frame) loop() {
 		}
 		for ; i < len(instrs); i++ {
 			fr.r.Steps++
+			if fr.r.Steps&0x3FFFF == 0 && !fr.r.Deadline.IsZero() && time.Now().After(fr.r.Deadline) {
+				fr.r.abort("budget: exploration deadline reached inside a path")
+			}
 			if fr.r.Steps > fr.r.StepCap {
 				fr.r.abort("unwind: step budget exceeded in " + fr.fn.String())
 			}
@@ -536,10 +553,14 @@ func (fr *Frame) step(instr ssa.Instruction) int {
 		}
 	case *ssa.MakeSlice:
 		n := fr.get(in.Len).(Num)
-		ln := int(r.concretize(n, 0, 64))
+		ln := r.allocLen(r.concretize(n, 0, 64), n)
 		cp := ln
 		if in.Cap != nil {
-			cp = int(r.concretize(fr.get(in.Cap).(Num), 0, 1<<20))
+			cn := fr.get(in.Cap).(Num)
+			cp = r.allocLen(r.concretize(cn, 0, 1<<20), cn)
+			if cp < ln {
+				panic(targetPanic{Str("makeslice: cap out of range")})
+			}
 		}
 		s := make([]Value, ln, cp)
 		et := in.Type().Underlying().(*types.Slice).Elem()
@@ -676,6 +697,19 @@ func (fr *Frame) step(instr ssa.Instruction) int {
 		panic(fmt.Sprintf("unsupported instr %T: %s in %s", instr, instr, fr.fn))
 	}
 	return 0
+}
+
+// allocLen guards host allocations: a length Go itself would refuse is a target panic, one that is merely
+// beyond what the interpreter's cell-vector representation can hold ends the path as inconclusive.
+func (r *Run) allocLen(v uint64, n Num) int {
+	sv := int64(signExtend(v, n.W))
+	if n.Signed && sv < 0 || v > 1<<46 {
+		panic(targetPanic{Str("makeslice: len out of range")})
+	}
+	if v > 1<<24 {
+		r.abort("unwind: allocation of more than 16M cells is beyond the engine's bound")
+	}
+	return int(v)
 }
 
 func (r *Run) index(idx Num, n int) int {
